@@ -21,6 +21,7 @@ namespace hs
             const void* ptr;
         } overflow[4] = {};
         unsigned       oom_calls = 0, badsize_calls = 0;
+        unsigned       stale_calls = 0; // a handler that is not the currently installed one was called
         void           reset()
         {
             *this = Handlers();
